@@ -220,7 +220,7 @@ ERR_SNIPPETS = [
     # allocator (index % 3 == 0: also run with -E; always given a memcheck row)
     "#define f(a) a\n#define t(a) a\nt(t(f)x)\n",
     "int g(void) { return 2 *; }\n", "struct { int x; } v = { .y = 1 };\n",
-    # known finding (known_findings.d/C20.json): the same use-after-free in pp.c next() (index % 3 == 0: also run with -E)
+    # regression input (known_findings.d/C20.json, fixed in d052c7b): the same use-after-free in pp.c next() (index % 3 == 0: also -E)
     "#define F(y) y\n#define ID(x) x\nID(F) 1\n",
 ]
 
